@@ -17,7 +17,50 @@ def _num(s):
 ADDR = 'src/resources/addr.rs'
 ASN = 'src/resources/asn.rs'
 
+URI = 'src/uri.rs'
+
+
+def _ascii_ranges(m):
+    out = []
+    for part in m.group(1).split('|'):
+        part = part.strip()
+        mm = re.fullmatch(r"b'(.)'\s*\.\.=\s*b'(.)'", part)
+        if mm:
+            out += [ord(mm.group(1)), ord(mm.group(2))]
+            continue
+        mm = re.fullmatch(r"b'(.)'", part)
+        if mm:
+            out += [ord(mm.group(1)), ord(mm.group(1))]
+            continue
+        raise ValueError(part)
+    return out
+
+
+def _eq_module(m):
+    body = m.group(1)
+    if re.search(r'self\.bytes\[\.\.self\.path_start\]\s*\.eq_ignore_ascii_case', body):
+        return True
+    if (re.search(r'self\.bytes\[\.\.self\.module_start\]\s*\.eq_ignore_ascii_case', body)
+            and re.search(r'self\.bytes\[self\.module_start\.\.self\.path_start\]\s*==\s*other\.bytes\[other\.module_start\.\.other\.path_start\]', body)
+            and 'self.module_start == other.module_start' in body):
+        return False
+    raise ValueError('eq_module shape not recognised')
+
+
+def _https_join(m):
+    body = m.group(1)
+    if re.search(r'if !self\.path\(\)\.is_empty\(\) && !self\.path\(\)\.ends_with\(\'/\'\)', body):
+        return False
+    if re.search(r'if !self\.path\(\)\.ends_with\(\'/\'\)', body):
+        return True
+    raise ValueError('Https::join shape not recognised')
+
+
 EXTRA = [
+    # ---- C12
+    ('uriAsciiRanges', URI, r'fn is_u8_uri_ascii\(ch: u8\) -> bool \{\s*matches!\(\s*ch,\s*([^)]*?)\s*\)', _ascii_ranges, ['C12', 'C14']),
+    ('rsyncModuleCaseInsensitive', URI, r'fn eq_module\(&self, other: &Rsync\) -> bool \{([\s\S]*?)\n    \}', _eq_module, ['C12']),
+    ('httpsJoinSlashWhenEmpty', URI, r'impl Https \{[\s\S]*?pub fn join\(&self, path: &\[u8\]\) -> Result<Self, Error> \{([\s\S]*?)\n    \}', _https_join, ['C12']),
     # ---- C13
     ('falV4Max', ADDR, r'pub fn new_v4\(len: u8\) -> Result<Self, PrefixError> \{\s*if len > (\d+) \{', 'nat', ['C13']),
     ('falV6Max', ADDR, r'pub fn new_v6\(len: u8\) -> Result<Self, PrefixError> \{\s*match len\.cmp\(&(\d+)\)', 'nat', ['C13']),
